@@ -4,6 +4,8 @@ DESCR = {0: 'B1: 2 primary services (128/16 bit), auto/16/128 bit characteristic
          1: 'B2: attribute_handle<> on service and characteristic, attribute_handles<> with/without CCCD, gaps up to 0x3000 (21 attributes)',
          2: 'B3: primary + secondary services, include_service 16/128 bit, fixed handles (16 attributes)',
          3: 'B4: secondary service + include_service without fixed handles (documentation example), GAP service (12 attributes)'}
+DESCR[7] = 'B8: primary, secondary, primary service, all with 16 bit UUIDs and one read-only characteristic each (9 attributes)'
+DESCR[8] = 'B9: secondary service with 128 bit UUID and a handle gap inside the service (attribute_handle<> on its second characteristic), included by a primary service (9 attributes)'
 UNITS = {c: Unit('att_b%d' % c, shim='shims/att_b.cpp', flags=['-DVF_BCFG=%d' % c], description=d) for c, d in DESCR.items()}
 
 
